@@ -237,7 +237,7 @@ def universe(tier, seed, shard, nshards):
             psis = [None, 1, (0, 1, 0, 1), (1, 0, 1, 0), (0, 0, 0, c), (0, r, 0, 0), (1, 1, 0, 0), (1, 0, 0, 0), (0, 0, 1, 0)]
             for w in (None, 1, 2):
                 for pen in (None, 0.5):
-                    for ms in (None, 1.2):
+                    for ms in (None, univ.max_step2(seed)):
                         for inner in ('sq', 'eu'):
                             for psi in psis:
                                 if psi is not None:
